@@ -21,6 +21,8 @@ type nsCase struct {
 	Ref  *nsgen.Outcome
 	Res  *nsrun.Result
 	Comp *nsrun.Compiled
+	// PrefixComp: compiled statement prefixes of P, shared by all inputs of the program (filled lazily by C03)
+	PrefixComp map[int]*nsrun.Compiled
 }
 
 type nsReplay struct {
@@ -95,8 +97,9 @@ func forEachCase(rep *evid.Reporter, sp *nsgen.Space, bal []string, st *nsStats,
 		comp := nsrun.Compile(compiler.Compile, text)
 		atomic.AddInt64(&st.programs, 1)
 		local := map[string]int{}
+		prefixes := map[int]*nsrun.Compiled{}
 		p.EachInput(bal, func(in *nsgen.Input) {
-			c := &nsCase{P: p, Text: text, In: in, Comp: comp}
+			c := &nsCase{P: p, Text: text, In: in, Comp: comp, PrefixComp: prefixes}
 			c.Ref = nsgen.Eval(p, in)
 			c.Res = comp.Exec(in)
 			atomic.AddInt64(&st.cases, 1)
